@@ -63,10 +63,16 @@ func (r *Rule) Ob(ok bool, sample string) {
 	if ok {
 		r.Discharged++
 	}
+	if sample != "" && traceAll {
+		fmt.Fprintf(os.Stderr, "TRACE %s ok=%v %s\n", r.ID, ok, sample)
+	}
 	if sample != "" && len(r.Samples) < 12 {
 		r.Samples = append(r.Samples, sample)
 	}
 }
+
+// traceAll prints every obligation sample (debugging aid: OGENVERIF_TRACE=1).
+var traceAll = os.Getenv("OGENVERIF_TRACE") != ""
 
 // Pass records a discharged obligation.
 func (r *Rule) Pass(sample string) { r.Ob(true, sample) }
